@@ -483,6 +483,14 @@ def run(ctx):
     r4_no_mut_tree_api(ctx)
     r5_backend_dispatch(ctx)
     r6_header_is_identity_plus_version(ctx)
+    # shared with C07-R2: after a refused replace-all the restored file and the
+    # in-memory tree must agree again (file moved back, then tree rebuilt from it)
+    from . import c07
+    c07.r2_replace_all(ctx)
+    ctx.rules[-1].id = "C06-R7"
+    for inst in ctx.rules[-1].instances:
+        inst["rule"] = "C06-R7"
+        inst["key"] = inst["key"].replace("C07-R2|", "C06-R7|", 1)
     if ctx.tier == "thorough" and ctx.config == "workspace":
         from .. import witness
         witness.run(ctx, 'C06-W', 'the commit tree cannot be mutated through the public EventLog API', {'TreeIsReadOnly': '`log.tree().commit()` through &L'})
